@@ -249,6 +249,7 @@ type stateCtx struct {
 	cv2     *chainView      // what the predicate knows about the state after b
 	vals2   keys.PublicKeys // validators of the height of b2
 	ph      map[string]*poolHist
+	pw      *pwCast // cast of the witness histories (poolwit_test.go)
 	chain   []link // the valid blocks at tip+1 .. tip+4 (b, b2, b3, b4), see ext_test.go
 	pagedOnce sync.Once
 	pagedC    *pagedChain
@@ -434,6 +435,7 @@ func buildState(sc *chainx.Scenario, h []int, md mode) (c *stateCtx, err error) 
 		return nil, fmt.Errorf("harness: chain extension: %w", err)
 	}
 	c.buildPoolHist()
+	c.buildPoolWitCast()
 	// features (for the coverage report and the choice of quick states)
 	idx := c.b.Index
 	if n.Opts.Multi {
